@@ -92,6 +92,14 @@ CHECKS["C04"] = {
             "round-trip equality (values).",
     "note": "only the parameter matrix is treated as possibly aliased with the outputs, as the property states; z0 is assumed distinct",
 }
+CHECKS["C08"] = {
+    "technique": "static qualifier analysis (raw file value vs Hz-scaled) over the Touchstone loader + enum/keyword exhaustiveness and matrix-format arm shape checks",
+    "text": "Decides that every frequency stored into the vnadata_t and every ordering comparison between a file value and a stored frequency uses the multiplier-scaled "
+            "value in both the version 1 and version 2 paths, that every unit keyword sets the multiplier, that each of the 14 option tokens is produced by the scanner "
+            "and handled by the option switch, that keyword literals can match the upper-cased scanner text, and that the Full/Upper/Lower arms store (r,c)/(c,r) as "
+            "the format defines (21_12 transposes in Full). Does not decide numeric equality of loaded values or the v1 2/4-port disambiguation.",
+    "note": "qualifier sources: tps_double / tps_value_vector = raw, multiplier*raw and vnadata_get_frequency = hz",
+}
 NOT_APPLICABLE = {
     "C14": "YAML fidelity of arbitrary scalars/keys depends on libyaml's emitter/scanner behaviour on run-time strings; no clause is visible in libvna's source shape (DESIGN.md section 3, C14)",
 }
